@@ -158,6 +158,7 @@ def rule_MP2(rep, prog):
 
 
 def rule_MP3(rep, prog):
+    from .C13 import linform
     rid = rep.rule("C10-MP3", "apply on a custom queue: the excess (requested - granted) width is what is relinquished on the upper levels AND what the helper "
                    "count da_thr_cnt is reduced by; the loop-carried width is the granted one; the final relinquish gives back that width", floor=4)
     fn = prog.fn("_dispatch_apply_redirect")
@@ -232,6 +233,20 @@ def rule_MP3(rep, prog):
                 "_dispatch_apply_redirect reserves the apply width on a queue that is not the level the walk down the target chain has reached (loop-carried, advanced "
                 "by do_targetq): with two or more non-root levels the lower ones are never asked for width, so a serial queue in the chain no longer forces the "
                 "serial fall-back and the iterations overlap on it", sample={"reserve": r.loc})
+    # what is asked of each level is the number of HELPER slots: da_thr_cnt - 1 (the calling thread already holds its own slot through dispatch_sync_f)
+    if want is not None and want.op == "phi":
+        for v, frm in want.ops:
+            if fn.dominates(want, fn.blocks[frm].term):
+                continue
+            lf = linform(fn, v)
+            loads = [a for a, co in lf.items() if isinstance(a, tuple) and a[0] == "i" and fn.insts[a[1]].op == "load" and "da_thr_cnt" in prog.fields(fn.insts[a[1]]) and co == 1]
+            c0 = lf.get(1, 0)
+            if c0 >= 1 << 31:
+                c0 -= 1 << 32
+            rep.require(rid, len(loads) == 1 and len(lf) == 2 and c0 == -1, want.loc, fn.name, "apply-width-request-not-helpers",
+                        "_dispatch_apply_redirect starts by asking the queues for %s slots instead of da_thr_cnt - 1: when a level grants exactly one slot fewer than "
+                        "asked the helper count drops to zero without the serial fall-back being taken - an empty helper list is pushed onto the root queue, no index "
+                        "runs and dispatch_apply never returns" % {str(k_): v_ for k_, v_ in lf.items()}, sample={"request": "da_thr_cnt - 1"})
     af = calls_named(fn, "_dispatch_apply_f")
     ok2 = bool(af) and all(fn.must_pass(c, last)[0] for c in af)
     rep.require(rid, ok2, fn.file, fn.name, "relinquish-after-apply", "the reserved width must be relinquished after _dispatch_apply_f returns on every path", sample={"apply_f": len(af)})
@@ -249,11 +264,13 @@ def rule_AI5(rep, prog):
     wl = [l for l in fn.all_insts() if l.op == "load" and "dq_width" in prog.fields(l)]
     sl = [l for l in fn.all_insts() if l.op == "load" and "dq_state" in prog.fields(l)]
     cx = [c for c in fn.all_insts() if c.op == "cmpxchg" and "dq_state" in prog.fields(c)]
-    if not wl or not sl or len(cx) != 1:
+    if not sl or len(cx) != 1:
         rep.unknown(rid, "anchor vanished in _dispatch_queue_try_reserve_apply_width (dq_width loads=%d, dq_state loads=%d, cmpxchg=%d)" % (len(wl), len(sl), len(cx)))
         return
     M32 = (1 << 32) - 1
-    for w, kuse in ((2, 1), (2, 0), (3, 1), (8, 3), (8, 8), (4, 4)):
+    # (1, 0): a serial queue in the chain never grants width, whatever its state word says - a thread-bound queue (the main queue serviced by a run loop) is
+    # serial but never drain-locked, so its state shows one free slot
+    for w, kuse in ((2, 1), (2, 0), (3, 1), (8, 3), (8, 8), (4, 4), (1, 0)):
         for da in (1, 5):
             S = ((FULL - w + kuse) << SH) | 0x1
             if kuse >= w:
@@ -271,7 +288,7 @@ def rule_AI5(rep, prog):
                 return i.op == "ret"
             r, env = concrete_walk(fn, env, stop)
             v = ceval(fn, r.ops[0], {k_: v_ for k_, v_ in env.items() if not isinstance(v_, tuple)}) if r is not None and r.ops else None
-            want = max(0, min(da, w - kuse))
+            want = max(0, min(da, w - kuse)) if w > 1 else 0
             got = None if v is None else (v - (1 << 32) if v >> 31 else v)
             okn = (not news and want == 0) or (news and news[-1] is not None and news[-1] == S + want * IV)
             rep.require(rid, got == want and okn, fn.file + ":" + str(fn.d.get("line")), fn.name, "apply-width-grant:%d:%d:%d" % (w, kuse, da),
